@@ -64,7 +64,7 @@ def check(run):
                       'Parser::collect_item_keys (%s)' % src_line('src/parser.rs', 'fn collect_item_keys'),
                       'Item::get_kind (%s)' % src_line('src/ast.rs', 'fn get_kind')]
     quick = run.tier == 'quick'
-    run.bounds += ['self-composition: <= %d imports, <= 1 forward declaration, key maps of <= 2 entries each; names, import paths and keys are unbounded z3 strings' % (2 if quick else 3),
+    run.bounds += ['self-composition: resolve_type <= %d imports, check_imports <= 2 imports, <= 1 forward declaration, key maps of <= 2 entries each; names, import paths and keys are unbounded z3 strings' % (2 if quick else 3),
                    'frame facts: all non-unwinding CFG paths']
     run.outside += ['a file with two imports that match the same written name (the implementation picks one in hash order: decided under C11)',
                     'two files registering the same item key with different kinds (which kind the key map holds is hash order: decided under C11)',
@@ -115,7 +115,7 @@ def check(run):
         jobs = [('resolve', (1, 0, 1, 1)), ('resolve', (1, 1, 1, 1)), ('resolve', (2, 0, 1, 1)), ('resolve', (2, 0, 2, 1)), ('imports', (1, 0, 1, 1)), ('imports', (2, 1, 1, 2)), ('imports', (2, 1, 2, 2))]
     else:
         jobs = [('resolve', (1, 0, 1, 1)), ('resolve', (1, 1, 1, 2)), ('resolve', (2, 0, 1, 1)), ('resolve', (2, 0, 2, 2)), ('resolve', (2, 1, 2, 1)), ('resolve', (3, 0, 1, 1)),
-                ('imports', (1, 0, 1, 1)), ('imports', (2, 1, 1, 2)), ('imports', (2, 1, 2, 2)), ('imports', (3, 1, 1, 2))]
+                ('imports', (1, 0, 1, 1)), ('imports', (2, 1, 1, 2)), ('imports', (2, 1, 2, 2)), ('imports', (2, 2, 2, 2))]      # 3 imports: > 900 s of path pairs, not run
     with mp.Pool(min(len(jobs), 14)) as pool:
         res = pool.map(_task, jobs)
     for kind, cfg, pairs, nq, viol, err, secs in res:
